@@ -13,43 +13,116 @@ pub fn no_observer(_: &Ctx, _: &Duo, _: &dyn Fn() -> Value) {}
 
 /// Default runs: orders in which all k*64 pairs are offered, truncated at the model cap.
 pub fn default_runs(lg_k: u8) -> Vec<(&'static str, Vec<u32>)> {
+    default_runs_upto(lg_k, usize::MAX)
+}
+
+/// The default orders, generated only up to `max_len` pairs (large lg_k spot checks).
+pub fn default_runs_upto(lg_k: u8, max_len: usize) -> Vec<(&'static str, Vec<u32>)> {
     let k = 1u32 << lg_k;
-    let cap = cpcm::max_coupons(lg_k) as usize;
+    let cap = (cpcm::max_coupons(lg_k) as usize).min(max_len);
     let mut out = vec![];
-    let mut a = vec![];
-    for col in 0..64 {
+    let mut a = Vec::with_capacity(cap.min(1 << 24));
+    'a: for col in 0..64 {
         for row in 0..k {
+            if a.len() >= cap {
+                break 'a;
+            }
             a.push(rc(row, col));
         }
     }
-    a.truncate(cap);
     out.push(("column-major (natural: most probable pairs first)", a));
-    let mut b = vec![];
-    for row in 0..k {
+    let mut b = Vec::with_capacity(cap.min(1 << 24));
+    'b: for row in 0..k {
         for col in 0..64 {
+            if b.len() >= cap {
+                break 'b;
+            }
             b.push(rc(row, col));
         }
     }
-    b.truncate(cap);
     out.push(("row-major (each row filled to column 63 before the next)", b));
-    let mut c = vec![];
-    for col in (0..64).rev() {
+    let mut c = Vec::with_capacity(cap.min(1 << 24));
+    'c: for col in (0..64).rev() {
         for row in (0..k).rev() {
+            if c.len() >= cap {
+                break 'c;
+            }
             c.push(rc(row, col));
         }
     }
-    c.truncate(cap);
     out.push(("high columns first (surprising values from the start)", c));
     let mut d = vec![];
-    // diagonal: pair (row, col) ordered by col*3 + (row*7 mod 11): interleaves zones
-    let mut all: Vec<(u32, u32)> = (0..k).flat_map(|r| (0..64).map(move |c| (r, c))).collect();
-    all.sort_by_key(|&(r, c)| (c * 3 + (r * 7) % 11, r));
-    for (r, cc) in all {
-        d.push(rc(r, cc));
+    if lg_k <= 14 {
+        // diagonal: pair (row, col) ordered by col*3 + (row*7 mod 11): interleaves zones
+        let mut all: Vec<(u32, u32)> = (0..k).flat_map(|r| (0..64).map(move |c| (r, c))).collect();
+        all.sort_by_key(|&(r, c)| (c * 3 + (r * 7) % 11, r));
+        for (r, cc) in all {
+            d.push(rc(r, cc));
+        }
+        d.truncate(cap);
     }
-    d.truncate(cap);
     out.push(("diagonal interleave of early/window/late zones", d));
+    // hashed items 0..n: the pairs the public update derives (reference MurmurHash), duplicates
+    // included; reaches the states ordinary streams reach (single surprising zeros, shrinking tables)
+    let mut e = vec![];
+    let n = (96u64 << lg_k).min(1 << 15).min(max_len as u64);
+    for i in 0..n {
+        let (h1, h2) = crate::refhash::murmur3_x64_128(&i.to_le_bytes(), 9001);
+        e.push(rc((h1 & (k as u64 - 1)) as u32, h2.leading_zeros().min(63)));
+    }
+    out.push(("hashed items 0..n (pairs from the reference MurmurHash)", e));
     out
+}
+
+/// "Move one pair later": the default run with the pair at position `i` delayed to position `j`.
+fn moved(run: &[u32], i: usize, j: usize) -> Vec<u32> {
+    let mut v: Vec<u32> = run.to_vec();
+    let p = v.remove(i);
+    v.insert(j.min(v.len()), p);
+    v
+}
+
+/// Deviation family 2: every (grid) pair of a default run delayed by a few distances / to the end.
+fn run_moves(ctx: &Ctx, lg_k: u8, src_stride: usize, obs: &Observer) {
+    let k = 1usize << lg_k;
+    let runs = default_runs(lg_k);
+    let jobs: Vec<(usize, usize)> = (0..4).flat_map(|ri| (0..runs[ri].1.len()).step_by(src_stride).map(move |i| (ri, i))).collect();
+    let edges = Mutex::new(BTreeMap::new());
+    let steps = std::sync::atomic::AtomicU64::new(0);
+    jobs.par_iter().for_each(|&(ri, i)| {
+        let run = &runs[ri].1;
+        for delta in [k, 4 * k, 16 * k, usize::MAX / 2] {
+            let j = i.saturating_add(delta);
+            if delta != usize::MAX / 2 && j >= run.len() {
+                continue;
+            }
+            let r2 = moved(run, i, j);
+            let mut d = Duo::new(lg_k);
+            let mut e = BTreeMap::new();
+            for (pos, &p) in r2.iter().enumerate() {
+                if !d.r.allows(p) {
+                    continue;
+                }
+                let vs = d.offer(p, &mut e);
+                steps.fetch_add(1, std::sync::atomic::Ordering::Relaxed);
+                if !vs.is_empty() && cpcm::report(ctx, vs, lg_k, &r2[..=pos]) {
+                    break;
+                }
+                if pos == j.min(r2.len() - 1) {
+                    obs(ctx, &d, &|| cpcm::replay_json(lg_k, &r2[..=pos]));
+                }
+            }
+            let mut g = edges.lock().unwrap();
+            for (kk, v) in e {
+                *g.entry(kk).or_insert(0) += v;
+            }
+        }
+    });
+    let st = steps.load(std::sync::atomic::Ordering::Relaxed);
+    ctx.add_states(st);
+    ctx.add_transitions(st);
+    ctx.count(&format!("E2 moves lg_k={lg_k}: executions with one pair delayed (by k, 4k, 16k, to the end)"), jobs.len() as u64 * 4);
+    ctx.edges_merge(&edges.lock().unwrap());
 }
 
 fn dev_alphabet(d: &Duo) -> Vec<u32> {
@@ -76,8 +149,11 @@ fn dev_alphabet(d: &Duo) -> Vec<u32> {
 }
 
 fn run_deep(ctx: &Ctx, lg_k: u8, bound: usize, stride1: usize, stride2: usize, full_every: usize, max_len: usize, obs: &Observer) {
-    default_runs(lg_k).into_par_iter().for_each(|(rname, mut run)| {
+    default_runs_upto(lg_k, max_len).into_par_iter().for_each(|(rname, mut run)| {
         run.truncate(max_len);
+        if run.is_empty() {
+            return;
+        }
         let init = Duo::new(lg_k);
         let edges = Mutex::new(BTreeMap::new());
         let refused = std::sync::atomic::AtomicU64::new(0);
@@ -165,7 +241,7 @@ fn run_small(ctx: &Ctx, lg_k: u8, depth: usize, obs: &Observer) {
     }
     cs.sort_unstable();
     cs.dedup();
-    let jobs: Vec<(usize, u32)> = (0..runs.len()).flat_map(|ri| cs.iter().map(move |&c| (ri, c))).collect();
+    let jobs: Vec<(usize, u32)> = (0..4).flat_map(|ri| cs.iter().map(move |&c| (ri, c))).collect();
     let edges = Mutex::new(BTreeMap::new());
     jobs.par_iter().for_each(|&(ri, c)| {
         let (_rname, run) = &runs[ri];
@@ -244,6 +320,7 @@ pub fn explore(ctx: &Ctx, obs: &Observer) {
         let jobs: Vec<Box<dyn Fn() + Sync + Send>> = vec![
             Box::new(|| run_deep(ctx, 4, 1, t.pick(64, 16), 1, 1, usize::MAX, obs)),
             Box::new(|| run_small(ctx, 4, t.pick(2, 3), obs)),
+            Box::new(|| run_moves(ctx, 4, t.pick(16, 4), obs)),
             Box::new(|| run_deep(ctx, 5, 1, t.pick(256, 64), 1, 1, usize::MAX, obs)),
             Box::new(|| run_deep(ctx, 6, 0, 1, 1, t.pick(4, 1), usize::MAX, obs)),
             Box::new(|| run_deep(ctx, 8, 0, 1, 1, t.pick(64, 16), usize::MAX, obs)),
@@ -263,6 +340,8 @@ pub fn explore(ctx: &Ctx, obs: &Observer) {
                 Box::new(|| run_deep(ctx, 4, 1, 8, 1, 1, usize::MAX, obs)),
                 Box::new(|| run_deep(ctx, 4, 2, 240, 240, 1, usize::MAX, obs)),
                 Box::new(|| run_small(ctx, 4, 4, obs)),
+                Box::new(|| run_moves(ctx, 4, 4, obs)),
+                Box::new(|| run_moves(ctx, 5, 32, obs)),
                 Box::new(|| run_deep(ctx, 5, 1, 64, 1, 1, usize::MAX, obs)),
                 Box::new(|| run_deep(ctx, 6, 1, 512, 1, 4, usize::MAX, obs)),
                 Box::new(|| run_deep(ctx, 8, 1, 4096, 1, 64, usize::MAX, obs)),
@@ -274,6 +353,9 @@ pub fn explore(ctx: &Ctx, obs: &Observer) {
             run_deep(ctx, 4, 2, 24, 24, 1, usize::MAX, obs);
             run_small(ctx, 4, 5, obs);
             run_small(ctx, 5, 4, obs);
+            run_moves(ctx, 4, 1, obs);
+            run_moves(ctx, 5, 4, obs);
+            run_moves(ctx, 6, 32, obs);
             run_deep(ctx, 5, 1, 4, 1, 1, usize::MAX, obs);
             run_deep(ctx, 6, 1, 32, 1, 2, usize::MAX, obs);
             run_deep(ctx, 7, 1, 128, 1, 8, usize::MAX, obs);
